@@ -615,12 +615,12 @@ def lattice_cases(tier):
                 for tp in ("none", "t0", "t1"):
                     i += 1
                     if tier == "quick":
-                        # seed-dependent 1/24 slice of the full product; every configuration is visited by some seed
-                        if (i + seed) % 24 != 0:
+                        # seed-dependent 1/12 slice of the full product; every configuration is visited by some seed
+                        if (i + seed) % 12 != 0:
                             continue
                     elif tp != "none" and (j + seed) % 3 != {"t0": 0, "t1": 1}[tp]:
                         continue        # thorough: every combination without test particles, a third with each type
-                    sysd = pool_system(regime, (j + seed) % 6 if tier != "quick" else (i // 24 + seed) % 6)
+                    sysd = pool_system(regime, (j + seed) % 6 if tier != "quick" else (i // 12 + seed) % 6)
                     out.append({"regime": regime, "cfg": cfg, "system": sysd, "tp": tp, "backward": backward,
                                 "norb": 3, "cache": True})
     return out
@@ -1107,9 +1107,9 @@ def run_trace_peri(case, ctx):
 
 def subs(tier):
     return [
-        Sub("order", run_order, strategy=order_case(tier), quick=360, thorough=24000, shards_quick=16, shards_thorough=16),
+        Sub("order", run_order, strategy=order_case(tier), quick=720, thorough=24000, shards_quick=16, shards_thorough=16),
         Sub("lattice", run_order, cases=lattice_cases, quick=0, thorough=0, shards_quick=16, shards_thorough=16),
-        Sub("adaptive", run_adaptive, strategy=adaptive_case(tier), quick=128, thorough=6400, shards_quick=8, shards_thorough=16),
+        Sub("adaptive", run_adaptive, strategy=adaptive_case(tier), quick=192, thorough=6400, shards_quick=8, shards_thorough=16),
         Sub("ode", run_ode, strategy=ode_case(tier), quick=48, thorough=1600, shards_quick=8, shards_thorough=16),
         Sub("sei", run_sei, strategy=sei_case(tier), quick=160, thorough=3200, shards_quick=4, shards_thorough=8),
         Sub("trace_peri", run_trace_peri, strategy=trace_peri_case(tier), quick=120, thorough=4800, shards_quick=4,
